@@ -16,6 +16,7 @@ import (
 
 	"github.com/benbjohnson/clock"
 	"github.com/libp2p/go-libp2p/core/peer"
+	tpt "github.com/libp2p/go-libp2p/core/transport"
 	"github.com/libp2p/go-libp2p/p2p/security/noise"
 	"github.com/libp2p/go-libp2p/p2p/security/noise/pb"
 	wt "github.com/libp2p/go-libp2p/p2p/transport/webtransport"
@@ -243,6 +244,100 @@ type dialAddrSpec struct {
 	Server int        `json:"server"`
 	Plan   string     `json:"plan"`
 	Elems  []elemSpec `json:"elems"`
+	Host   string     `json:"host"`           // ip | sni | dns | dns+sni: the name-carrying components of the dialled address
+	Name   int        `json:"name,omitempty"` // index into hostNames
+	Client string     `json:"client"`         // the dialling transport's own TLS client configuration (WithTLSClientConfig)
+}
+
+// Name-carrying components of the dialled address. The statement's "only if its SHA-256
+// equals one of the hashes in the dialed address" quantifies over dialled addresses, and a
+// webtransport address may name the server besides (or instead of) pinning it:
+//
+//	ip        /ip4/127.0.0.1/udp/P/quic-v1/webtransport[/certhash..]             (what a listener advertises)
+//	sni       /ip4/127.0.0.1/udp/P/quic-v1/sni/<name>/webtransport[/certhash..]  (the shape transport.Resolve produces from a /dns address)
+//	dns       /dns4/<name>/udp/P/quic-v1/webtransport[/certhash..]               (unresolved; the transport cannot reach it: only "must not complete" is judged)
+//	dns+sni   /dns4/<name>/udp/P/quic-v1/sni/<name>/webtransport[/certhash..]    (ditto)
+var hostWeights = []string{"sni", "sni", "sni", "sni", "sni", "ip", "ip", "ip", "ip", "ip", "dns", "dns+sni"}
+var hostNames = []string{"localhost", "example.com", "node-7.libp2p.direct"}
+
+// TLS client configurations of the dialling transport (WithTLSClientConfig). "Accepts" = the
+// configuration on its own would let the listener's self-signed certificate through:
+//
+//	default            no WithTLSClientConfig (system roots: refuses)
+//	skip-verify        InsecureSkipVerify (accepts)
+//	custom-roots       chain verification against a private pool that holds the listeners' certificates, no name check (accepts)
+//	verify-connection  InsecureSkipVerify + a VerifyConnection hook that returns nil (accepts)
+//	strict-roots       RootCAs = that private pool, standard verification incl. the host name (refuses: the certificates carry no name)
+//
+// Whatever the configuration, the dial may complete only under the statement's two conditions.
+var clientWeights = []string{"skip-verify", "skip-verify", "skip-verify", "default", "default", "default", "default", "custom-roots", "custom-roots", "verify-connection", "strict-roots"}
+
+func clientAccepts(c string) bool {
+	return c == "skip-verify" || c == "custom-roots" || c == "verify-connection"
+}
+
+func clientTLSConfig(class string, leaves [][]byte) (*tls.Config, error) {
+	pool := x509.NewCertPool()
+	for _, l := range leaves {
+		c, err := x509.ParseCertificate(l)
+		if err != nil {
+			return nil, err
+		}
+		pool.AddCert(c)
+	}
+	switch class {
+	case "default":
+		return nil, nil
+	case "skip-verify":
+		return &tls.Config{InsecureSkipVerify: true}, nil
+	case "verify-connection":
+		return &tls.Config{InsecureSkipVerify: true, VerifyConnection: func(tls.ConnectionState) error { return nil }}, nil
+	case "strict-roots":
+		return &tls.Config{RootCAs: pool}, nil
+	case "custom-roots":
+		return &tls.Config{InsecureSkipVerify: true, VerifyPeerCertificate: func(raw [][]byte, _ [][]*x509.Certificate) error {
+			if len(raw) == 0 {
+				return errors.New("no certificate")
+			}
+			c, err := x509.ParseCertificate(raw[0])
+			if err != nil {
+				return err
+			}
+			_, err = c.Verify(x509.VerifyOptions{Roots: pool, KeyUsages: []x509.ExtKeyUsage{x509.ExtKeyUsageServerAuth}})
+			return err
+		}}, nil
+	}
+	return nil, fmt.Errorf("unknown client class %q", class)
+}
+
+// withHost rewrites the listener's address (without certhashes) into the drawn host shape.
+func withHost(base ma.Multiaddr, host, name string) (ma.Multiaddr, error) {
+	var out ma.Multiaddr
+	var err error
+	ma.ForEach(base, func(c ma.Component) bool {
+		var nc *ma.Component
+		switch code := c.Protocol().Code; {
+		case (code == ma.P_IP4 || code == ma.P_IP6) && strings.HasPrefix(host, "dns"):
+			proto := "dns4"
+			if code == ma.P_IP6 {
+				proto = "dns6"
+			}
+			if nc, err = ma.NewComponent(proto, name); err != nil {
+				return false
+			}
+			out = out.AppendComponent(nc)
+		case code == ma.P_QUIC_V1 && strings.HasSuffix(host, "sni"):
+			out = out.AppendComponent(&c)
+			if nc, err = ma.NewComponent("sni", name); err != nil {
+				return false
+			}
+			out = out.AppendComponent(nc)
+		default:
+			out = out.AppendComponent(&c)
+		}
+		return true
+	})
+	return out, err
 }
 
 // drawDialAddr constructs (no rejection) one of the following plans:
@@ -258,7 +353,7 @@ type dialAddrSpec struct {
 //	none               no certhash at all
 var planWeights = []string{
 	"one-unconfirmed", "one-unconfirmed", "one-unconfirmed", "one-unconfirmed", "one-unconfirmed", "one-unconfirmed", "one-unconfirmed", "one-unconfirmed", "one-unconfirmed",
-	"mix", "mix", "mix", "only-other-codes", "only-other-codes", "only-unconfirmed", "not-served", "not-served", "all-confirmed", "all-confirmed", "none",
+	"mix", "mix", "mix", "only-other-codes", "only-other-codes", "only-unconfirmed", "not-served", "not-served", "all-confirmed", "all-confirmed", "none", "none", "none",
 }
 
 func drawDialAddr(rt *rapid.T, nServers int) dialAddrSpec {
@@ -317,6 +412,11 @@ func drawDialAddr(rt *rapid.T, nServers int) dialAddrSpec {
 	default:
 		panic("unknown plan " + s.Plan)
 	}
+	s.Host = rapid.SampledFrom(hostWeights).Draw(rt, "host")
+	if s.Host != "ip" {
+		s.Name = rapid.IntRange(0, len(hostNames)-1).Draw(rt, "hostName")
+	}
+	s.Client = rapid.SampledFrom(clientWeights).Draw(rt, "client")
 	return s
 }
 
@@ -444,7 +544,26 @@ func TestE2EDialledHashes(t *testing.T) {
 		}
 		targets = append(targets, target{srv: srv, base: stripCerthashes(srv.ln.Multiaddr()), obs: obs})
 	}
-	d := newDialer(t, 300+shard)
+	// one dialling transport per TLS client configuration class
+	var leaves [][]byte
+	for _, tg := range targets {
+		leaves = append(leaves, tg.obs.leaf)
+	}
+	dialers := map[string]tpt.Transport{}
+	for _, class := range clientWeights {
+		if _, ok := dialers[class]; ok {
+			continue
+		}
+		conf, err := clientTLSConfig(class, leaves)
+		if err != nil {
+			t.Fatalf("harness: TLS client configuration %s: %v", class, err)
+		}
+		var opts []wt.Option
+		if conf != nil {
+			opts = append(opts, wt.WithTLSClientConfig(conf))
+		}
+		dialers[class] = newDialer(t, 300+shard, opts...)
+	}
 	timeouts := 0
 
 	hx.Check(t, 2000, 40000, 0, func(rt *rapid.T) {
@@ -452,7 +571,11 @@ func TestE2EDialledHashes(t *testing.T) {
 		tg := targets[spec.Server]
 
 		// build the address
-		addr := tg.base
+		d := dialers[spec.Client]
+		addr, err := withHost(tg.base, spec.Host, hostNames[spec.Name])
+		if err != nil {
+			rt.Fatalf("harness: host shape %s of %s: %v", spec.Host, tg.base, err)
+		}
 		var kinds []string
 		for _, e := range spec.Elems {
 			dh, kind, err := e.realise(tg.obs)
@@ -487,8 +610,11 @@ func TestE2EDialledHashes(t *testing.T) {
 			}
 		}
 		mayComplete := pinned && len(unconfirmed) == 0
+		// an unresolved /dns address cannot be reached by the transport at all (the swarm resolves it
+		// first): only the "must not complete" side is judged for it
+		reachable := !strings.HasPrefix(spec.Host, "dns")
 
-		err := dialOnce(t, d, addr, tg.srv.id)
+		err = dialOnce(t, d, addr, tg.srv.id)
 		if isTimeout(err) {
 			timeouts++
 			rt.Skip("inconclusive: dial timed out")
@@ -502,7 +628,7 @@ func TestE2EDialledHashes(t *testing.T) {
 				}
 				parts = append(parts, fmt.Sprintf("#%d %s [%s code=%#x len=%d %x..] %s", i, kinds[i], h.Name, h.Code, h.Length, h.Digest[:min(6, len(h.Digest))], c))
 			}
-			return fmt.Sprintf("dialled %s\n  certhashes: %s\n  listener serves sha256=%x and confirms %v", addr, strings.Join(parts, "; "), tg.obs.sum[:6], tg.obs.confirmed)
+			return fmt.Sprintf("dialled %s (dialling transport's TLS client configuration: %s)\n  certhashes: %s\n  listener serves sha256=%x and confirms %v", addr, spec.Client, strings.Join(parts, "; "), tg.obs.sum[:6], tg.obs.confirmed)
 		}
 		if err == nil && !pinned {
 			rt.Fatalf("dial completed although the SHA-256 of the served certificate is not among the sha2-256 hashes of the dialled address: %s", desc())
@@ -514,13 +640,26 @@ func TestE2EDialledHashes(t *testing.T) {
 			}
 			rt.Fatalf("dial completed although the server did not confirm every certificate hash the dialer relied on: unconfirmed %s: %s", strings.Join(which, ", "), desc())
 		}
-		if err != nil && mayComplete {
+		if err != nil && mayComplete && reachable {
 			rt.Fatalf("control: dial failed (%v) although the address holds the served hash and every hash of it is confirmed by the server: %s", err, desc())
 		}
 
 		// evidence
 		n := len(dialled)
-		labels := []string{"dialaddr:plan=" + spec.Plan, fmt.Sprintf("dialaddr:certhashes=%d", n), fmt.Sprintf("dialaddr:completed=%v", err == nil)}
+		labels := []string{"dialaddr:plan=" + spec.Plan, fmt.Sprintf("dialaddr:certhashes=%d", n), fmt.Sprintf("dialaddr:completed=%v", err == nil),
+			"dialaddr:host=" + spec.Host, "dialaddr:client-tls=" + spec.Client}
+		nameCls := "named(sni/dns)"
+		if spec.Host == "ip" {
+			nameCls = "unnamed"
+		}
+		acceptCls := "client-tls-refuses-cert"
+		if clientAccepts(spec.Client) {
+			acceptCls = "client-tls-accepts-cert"
+		}
+		labels = append(labels, fmt.Sprintf("dialaddr:certhashes=%s/%s/%s", map[bool]string{true: "0", false: ">=1"}[n == 0], nameCls, acceptCls))
+		if n == 0 && spec.Host == "sni" && clientAccepts(spec.Client) {
+			labels = append(labels, "dialaddr:no-certhash+sni+client-tls-accepts-cert(resolve-shape, reachable)")
+		}
 		seenLabel := map[string]bool{}
 		add := func(l string) {
 			if !seenLabel[l] {
@@ -590,14 +729,21 @@ func TestE2EDialledHashes(t *testing.T) {
 		if !pinned && len(unconfirmed) == 0 && n > 0 {
 			add("dialaddr:all-confirmed-but-served-hash-absent")
 		}
-		if mayComplete {
+		if mayComplete && reachable {
 			add("dialaddr:control-must-complete")
+			add("dialaddr:control-must-complete/host=" + spec.Host + "/client-tls=" + spec.Client)
 		}
 		sort.Strings(labels)
 		// non-trivial: at most one reason to refuse (the control, or exactly one unconfirmed element, or only the pin missing)
-		stats.Case(name, fmt.Sprintf("%s|%s", spec.Plan, strings.Join(kinds, "+")), failing <= 1, labels...)
+		// (an address without certhash is non-trivial when nothing but the missing pin stands between the dial and completion:
+		// reachable, and the dialling transport's own TLS configuration accepts the certificate)
+		nontrivial := failing <= 1
+		if n == 0 {
+			nontrivial = reachable && clientAccepts(spec.Client)
+		}
+		stats.Case(name, fmt.Sprintf("%s|%s|%s|%s", spec.Plan, strings.Join(kinds, "+"), spec.Host, spec.Client), nontrivial, labels...)
 		if stats.WantSample(name) {
-			stats.Sample(name, map[string]any{"spec": spec, "certhashes": kinds, "served_hash_in_address": pinned, "unconfirmed_positions": unconfirmed, "completed": err == nil})
+			stats.Sample(name, map[string]any{"spec": spec, "certhashes": kinds, "served_hash_in_address": pinned, "unconfirmed_positions": unconfirmed, "completed": err == nil, "address_shape": stripCerthashes(addr).String()})
 		}
 	})
 
